@@ -18,6 +18,7 @@ CONSTANTS
   AtomicPT = TRUE
   AtomicPut = TRUE
   NotifyAfterStore = FALSE
+  DrainThenSend = TRUE
   AtomicSubscribe = TRUE
 INVARIANTS Linearizable
 SYMMETRY Sym
